@@ -102,7 +102,8 @@ func (p *Program) genFunc(c *Ctx, fn *ssa.Function, ct *Contract) {
 	for _, ax := range p.Axioms {
 		if ax.Pkg == ct.Pkg {
 			ae := &Env{c: c, vars: map[string]SVal{}, cur: entry, pkg: fn.Pkg.Pkg, g: tTrue}
-			c.assume(c.safeEvalBool(ae, ax.C))
+			c.assumeAxiom(c.safeEvalBool(ae, ax.C), ax.C)
+			c.trustedUsed["axiom "+shortPkg(ax.Pkg)+"."+ax.C.Label+": "+ax.C.Src] = true
 		}
 	}
 	rets := fr.exec(st, g)
@@ -302,6 +303,12 @@ func (p *Program) VerifyLemma(l *Lemma, tier string) *Unit {
 			t := c.safeEvalBool(e, r)
 			reqs = append(reqs, t)
 			c.assume(t)
+		}
+		for _, ax := range p.Axioms {
+			if ax.Pkg == l.Pkg {
+				c.assumeAxiom(c.safeEvalBool(e, ax.C), ax.C)
+				c.trustedUsed["axiom "+shortPkg(ax.Pkg)+"."+ax.C.Label+": "+ax.C.Src] = true
+			}
 		}
 		c.oblige(&Obligation{Name: name + "/cover#requires", Func: name, Kind: "cover", Guard: tTrue, Goal: tFalse, ExpectFail: true,
 			Src: "lemma hypotheses are satisfiable (vacuity guard)", Pos: u.Pos})
